@@ -19,7 +19,7 @@ pub use cardinality::{CardinalityEstimator, ColumnStats, TableStats};
 pub use cost::{Cost, CostModel};
 pub use join_order::{BitSet, DPccp, JoinGraph, JoinGraphBuilder, JoinPlan};
 
-use crate::query::plan::{FilterOp, LogicalExpression, LogicalOperator, LogicalPlan};
+use crate::query::plan::{FilterOp, JoinType, LogicalExpression, LogicalOperator, LogicalPlan};
 use grafeo_common::utils::error::Result;
 use std::collections::HashSet;
 
@@ -667,14 +667,32 @@ impl Optimizer {
         predicate: LogicalExpression,
         op: LogicalOperator,
     ) -> LogicalOperator {
+        // A predicate may only move to a place where every variable it reads is
+        // bound to the same value. The variables a subquery correlates on are not
+        // reported by extract_variables, so a predicate containing one stays put.
+        if Self::contains_subquery(&predicate) {
+            return LogicalOperator::Filter(FilterOp {
+                predicate,
+                input: Box::new(op),
+            });
+        }
+
         match op {
-            // Can push through Project if predicate doesn't depend on computed columns
+            // Can push through Project if it hands every variable of the predicate
+            // through unchanged (a computed or renamed column, or a variable the
+            // projection drops, means something else below it)
             LogicalOperator::Project(mut proj) => {
                 let predicate_vars = self.extract_variables(&predicate);
-                let computed_vars = self.extract_projection_aliases(&proj.projections);
+                let items: Vec<(&LogicalExpression, Option<&str>)> = proj
+                    .projections
+                    .iter()
+                    .map(|p| (&p.expression, p.alias.as_deref()))
+                    .collect();
 
-                // If predicate doesn't use any computed columns, push through
-                if predicate_vars.is_disjoint(&computed_vars) {
+                if predicate_vars
+                    .iter()
+                    .all(|v| Self::passes_through(&items, v))
+                {
                     proj.input = Box::new(self.try_push_filter_into(predicate, *proj.input));
                     LogicalOperator::Project(proj)
                 } else {
@@ -686,34 +704,37 @@ impl Optimizer {
                 }
             }
 
-            // Can push through Return (which is like a projection)
+            // Return is a projection as well: same condition
             LogicalOperator::Return(mut ret) => {
-                ret.input = Box::new(self.try_push_filter_into(predicate, *ret.input));
-                LogicalOperator::Return(ret)
+                let predicate_vars = self.extract_variables(&predicate);
+                let items: Vec<(&LogicalExpression, Option<&str>)> = ret
+                    .items
+                    .iter()
+                    .map(|i| (&i.expression, i.alias.as_deref()))
+                    .collect();
+
+                if predicate_vars
+                    .iter()
+                    .all(|v| Self::passes_through(&items, v))
+                {
+                    ret.input = Box::new(self.try_push_filter_into(predicate, *ret.input));
+                    LogicalOperator::Return(ret)
+                } else {
+                    LogicalOperator::Filter(FilterOp {
+                        predicate,
+                        input: Box::new(LogicalOperator::Return(ret)),
+                    })
+                }
             }
 
-            // Can push through Expand if predicate doesn't use variables introduced by this expand
+            // Can push through Expand if everything the predicate reads is already
+            // bound below it (the target, the edge, the path alias and the path
+            // length column are bound by the expand itself)
             LogicalOperator::Expand(mut expand) => {
                 let predicate_vars = self.extract_variables(&predicate);
+                let bound_below = self.collect_output_variables(&expand.input);
 
-                // Variables introduced by this expand are:
-                // - The target variable (to_variable)
-                // - The edge variable (if any)
-                // - The path alias (if any)
-                let mut introduced_vars = vec![&expand.to_variable];
-                if let Some(ref edge_var) = expand.edge_variable {
-                    introduced_vars.push(edge_var);
-                }
-                if let Some(ref path_alias) = expand.path_alias {
-                    introduced_vars.push(path_alias);
-                }
-
-                // Check if predicate uses any variables introduced by this expand
-                let uses_introduced_vars =
-                    predicate_vars.iter().any(|v| introduced_vars.contains(&v));
-
-                if !uses_introduced_vars {
-                    // Predicate doesn't use vars from this expand, so push through
+                if predicate_vars.iter().all(|v| bound_below.contains(v)) {
                     expand.input = Box::new(self.try_push_filter_into(predicate, *expand.input));
                     LogicalOperator::Expand(expand)
                 } else {
@@ -725,7 +746,9 @@ impl Optimizer {
                 }
             }
 
-            // Can push through Join to left/right side based on variables used
+            // Can push through Join to the side that binds all variables used,
+            // unless that side is the optional one of an outer join (filtering it
+            // there keeps rows the filter above the join removes)
             LogicalOperator::Join(mut join) => {
                 let predicate_vars = self.extract_variables(&predicate);
                 let left_vars = self.collect_output_variables(&join.left);
@@ -733,17 +756,28 @@ impl Optimizer {
 
                 let uses_left = predicate_vars.iter().any(|v| left_vars.contains(v));
                 let uses_right = predicate_vars.iter().any(|v| right_vars.contains(v));
+                let all_left = predicate_vars.iter().all(|v| left_vars.contains(v));
+                let all_right = predicate_vars.iter().all(|v| right_vars.contains(v));
+                let left_preserved = matches!(
+                    join.join_type,
+                    JoinType::Inner
+                        | JoinType::Cross
+                        | JoinType::Left
+                        | JoinType::Semi
+                        | JoinType::Anti
+                );
+                let right_preserved = matches!(join.join_type, JoinType::Inner | JoinType::Cross);
 
-                if uses_left && !uses_right {
+                if uses_left && !uses_right && all_left && left_preserved {
                     // Push to left side
                     join.left = Box::new(self.try_push_filter_into(predicate, *join.left));
                     LogicalOperator::Join(join)
-                } else if uses_right && !uses_left {
+                } else if uses_right && !uses_left && all_right && right_preserved {
                     // Push to right side
                     join.right = Box::new(self.try_push_filter_into(predicate, *join.right));
                     LogicalOperator::Join(join)
                 } else {
-                    // Uses both sides - keep above join
+                    // Keep above join
                     LogicalOperator::Filter(FilterOp {
                         predicate,
                         input: Box::new(LogicalOperator::Join(join)),
@@ -771,6 +805,73 @@ impl Optimizer {
         }
     }
 
+    /// Does a projection list hand variable `v` through unchanged? True if an item
+    /// is the bare variable (not renamed) and no other item is named `v`.
+    fn passes_through(items: &[(&LogicalExpression, Option<&str>)], v: &str) -> bool {
+        let is_v = |e: &LogicalExpression| matches!(e, LogicalExpression::Variable(n) if n == v);
+        // RETURN * / WITH * hands everything through
+        let star = items
+            .iter()
+            .any(|(e, _)| matches!(e, LogicalExpression::Variable(n) if n == "*"));
+        let handed = items
+            .iter()
+            .any(|(e, a)| is_v(e) && a.is_none_or(|a| a == v));
+        let shadowed = items.iter().any(|(e, a)| *a == Some(v) && !is_v(e));
+        (handed || star) && !shadowed
+    }
+
+    /// Does the expression contain a subquery?
+    fn contains_subquery(expr: &LogicalExpression) -> bool {
+        match expr {
+            LogicalExpression::ExistsSubquery(_) | LogicalExpression::CountSubquery(_) => true,
+            LogicalExpression::Binary { left, right, .. } => {
+                Self::contains_subquery(left) || Self::contains_subquery(right)
+            }
+            LogicalExpression::Unary { operand, .. } => Self::contains_subquery(operand),
+            LogicalExpression::FunctionCall { args, .. } => {
+                args.iter().any(Self::contains_subquery)
+            }
+            LogicalExpression::List(items) => items.iter().any(Self::contains_subquery),
+            LogicalExpression::Map(pairs) => pairs.iter().any(|(_, v)| Self::contains_subquery(v)),
+            LogicalExpression::IndexAccess { base, index } => {
+                Self::contains_subquery(base) || Self::contains_subquery(index)
+            }
+            LogicalExpression::SliceAccess { base, start, end } => {
+                Self::contains_subquery(base)
+                    || start.as_deref().is_some_and(Self::contains_subquery)
+                    || end.as_deref().is_some_and(Self::contains_subquery)
+            }
+            LogicalExpression::Case {
+                operand,
+                when_clauses,
+                else_clause,
+            } => {
+                operand.as_deref().is_some_and(Self::contains_subquery)
+                    || when_clauses
+                        .iter()
+                        .any(|(c, r)| Self::contains_subquery(c) || Self::contains_subquery(r))
+                    || else_clause.as_deref().is_some_and(Self::contains_subquery)
+            }
+            LogicalExpression::ListComprehension {
+                list_expr,
+                filter_expr,
+                map_expr,
+                ..
+            } => {
+                Self::contains_subquery(list_expr)
+                    || filter_expr.as_deref().is_some_and(Self::contains_subquery)
+                    || Self::contains_subquery(map_expr)
+            }
+            LogicalExpression::Variable(_)
+            | LogicalExpression::Property { .. }
+            | LogicalExpression::Labels(_)
+            | LogicalExpression::Type(_)
+            | LogicalExpression::Id(_)
+            | LogicalExpression::Literal(_)
+            | LogicalExpression::Parameter(_) => false,
+        }
+    }
+
     /// Collects all output variable names from an operator.
     fn collect_output_variables(&self, op: &LogicalOperator) -> HashSet<String> {
         let mut vars = HashSet::new();
@@ -783,6 +884,10 @@ impl Optimizer {
         match op {
             LogicalOperator::NodeScan(scan) => {
                 vars.insert(scan.variable.clone());
+                // A chained scan also hands on what its input binds
+                if let Some(input) = &scan.input {
+                    Self::collect_output_variables_recursive(input, vars);
+                }
             }
             LogicalOperator::EdgeScan(scan) => {
                 vars.insert(scan.variable.clone());
@@ -929,13 +1034,6 @@ impl Optimizer {
         }
     }
 
-    /// Extracts aliases from projection expressions.
-    fn extract_projection_aliases(
-        &self,
-        projections: &[crate::query::plan::Projection],
-    ) -> HashSet<String> {
-        projections.iter().filter_map(|p| p.alias.clone()).collect()
-    }
 }
 
 impl Default for Optimizer {
